@@ -93,10 +93,11 @@ IsConst(s, t) == t < NT0(s) /\ IsConstRole(Role(s, t))
 IsAux(s, t) == t < NT0(s) /\ Role(s, t) = "aux"
 BufOf(s, t) == IF G[s].tbuf[t+1] = 0 THEN <<s, t>> ELSE <<0, G[s].tbuf[t+1]>>
 
-WeightKinds == {"FC", "TCONV", "BMM", "EMB"}
+WeightKinds == {"FC", "TCONV", "BMM", "BMMC", "EMB"}
 Sig(k) == CASE k = "FC"      -> <<"act", "w", "b?">>
             [] k = "TCONV"   -> <<"aux", "w", "act", "b?">>
             [] k = "BMM"     -> <<"act", "w">>
+            [] k = "BMMC"    -> <<"w", "act">>      \* batch matmul whose FIRST operand is the constant
             [] k = "EMB"     -> <<"aux", "w">>
             [] k = "EW2"     -> <<"x", "x">>
             [] k = "UNSUP2"  -> <<"x", "x">>      \* a binary operator the quantizer does not know (MAXIMUM, MINIMUM)
